@@ -1,6 +1,6 @@
 #!/bin/bash
 # tools/runall.sh [tier]: setup + every check once, summary at the end (what `vp check` does, locally)
-cd /verif
+cd "$(dirname "$0")/.."
 tier=${1:-quick}
 log=.cache/runall-$tier.log
 ( time ./check --warm $tier ) > $log 2>&1
